@@ -29,7 +29,7 @@ def sizes(ctx, quick, thorough):
     if ctx.tier == "thorough":
         return thorough
     if getattr(ctx, "search", False):
-        return max(quick, min(thorough, quick * 6))
+        return max(quick, min(thorough, quick * 3))
     return quick
 
 
@@ -37,7 +37,7 @@ def seeds(ctx):
     if ctx.tier == "thorough":
         return [ctx.seed * 1000 + k for k in range(4)]
     if getattr(ctx, "search", False):
-        return [ctx.seed, ctx.seed + 7919, ctx.seed + 104729]
+        return [ctx.seed, ctx.seed + 7919]
     return [ctx.seed]
 
 
@@ -80,11 +80,14 @@ def C17(ctx):
 def C02(ctx):
     if common_prelude(ctx, ["Props.C02"]):
         codec_runs(ctx, "rt", ["C02"], 2500, 40000)
+        codec_runs(ctx, "val", ["C02"], 1500, 30000)
     ctx.rules.append("serialize a random population (adversarial values spelling 'tag=' of the same template) then parse into a blank twin: model and implementation must produce the same tree; "
-                     "go-side oracle: parsed tree = intended population and re-serialisation byte-identical (strict and non-strict); non-trivial = distinct wire image of a template with pairwise distinct tags")
+                     "go-side oracle: parsed tree = intended population and re-serialisation byte-identical (strict and non-strict); non-trivial = distinct wire image of a template with pairwise distinct tags; "
+                     "value codec (mode val): FromBytes/ToBytes of all seven value types on near-valid texts (boundary integers, signs, exponents, inf/nan, hex floats, underscores, damaged time renderings) must equal Val.fromBytes; "
+                     "timeFmt must equal Go's Format for random UTC instants (leap days, year 0..9999); go-side: NewTime/NewFloat renderings are fixed points and NewFloat renders [-]ddd[.ddd] of magnitude <= MaxFloat64 (the shape C02_float_values assumes)")
     return finish(ctx, "proof", "Lean round-trip theorems over the decoder model + correspondence + round-trip oracle on the implementation",
                   TRUSTED_COMMON, ["tags pairwise distinct in a template, first field of each group entry populated, no empty value (property preconditions)",
-                                   "Float/Time: strconv / time round-trip laws validated, not proved"], CHECKER)
+                                   "Time: proved for every UTC instant at millisecond precision with a four-digit year (C02_time_values); Float: proved for every plain decimal rendering of magnitude <= MaxFloat64 (C02_float_values); that strconv.FormatFloat / time.Format produce these renderings is validated value by value, not proved"], CHECKER)
 
 
 def C18(ctx):
@@ -322,7 +325,7 @@ def timer_prop(pid, modules, technique, nontrivial):
             n = sizes(ctx, 6, 60)
             for sd in seeds(ctx):
                 ps = [pid] + (["C08"] if pid == "C09" else [])
-                res = run_realtime(ctx, f"timers-{sd}", "timers", ["-seed", str(sd), "-n", str(n)], ps)
+                res = run_realtime(ctx, f"timers-{sd}", "timers", ["-seed", str(sd), "-n", str(n), "-long", str(sizes(ctx, 4, 24))], ps)
                 fold(ctx, res, ps, f"timer model vs real utils.Timer / Session timers, seed {sd}")
         ctx.rules.append("real time: utils.Timer at T in {30,50,100} ms with random refresh schedules — measured expiry must lie in [last refresh + T, + T/10 + 100 ms slack] and within one polling period + slack of the "
                          "model's ideal expiry for the observed refresh times; whole sessions at N = 1 s, both roles: heartbeat spacing with idle / send near the deadline / burst / random sends while the peer talks; "
@@ -331,7 +334,7 @@ def timer_prop(pid, modules, technique, nontrivial):
         return finish(ctx, "proof", technique, TRUSTED_COMMON + [
             "time.Ticker / time.Now realise a poll within the stated slack (100 ms): timing is measured, the timer logic is proved",
             "expiry decision and message emission are one atomic step in the model (the runtime can interleave a send: scheduling slack named in the property)"],
-            ["N >= 1 s; timers are exercised at N = 1 and T in {30,50,100} ms"], CHECKER)
+            ["N >= 1 s; timers are exercised at N = 1 and T in {30,50,100} ms (random refreshes) and T = 3 s (refreshes mid-period, expiry compared with the model's poll within the slack)"], CHECKER)
     return run
 
 
